@@ -8,14 +8,14 @@ Local Open Scope string_scope.
 Local Open Scope list_scope.
 
 (* ---- resolve and fragment_bases do not depend on the fuel once they succeed ---- *)
-Lemma resolve_fuel_det S frs : forall k1 k2 sels r a b,
-  resolve k1 S frs sels r = Ok a -> resolve k2 S frs sels r = Ok b -> a = b.
+Lemma resolve_fuel_det S frs : forall k1 k2 under sels r a b,
+  resolve k1 S frs under sels r = Ok a -> resolve k2 S frs under sels r = Ok b -> a = b.
 Proof.
-  induction k1 as [|k1 IH]; intros k2 sels r a b H1 H2; [discriminate H1|].
+  induction k1 as [|k1 IH]; intros k2 under sels r a b H1 H2; [discriminate H1|].
   destruct k2 as [|k2]; [discriminate H2|]. simpl in H1, H2.
   assert (G : forall sels acc a b,
-            fold_left (resolve_step (resolve k1 S frs) S frs r) sels (Ok acc) = Ok a ->
-            fold_left (resolve_step (resolve k2 S frs) S frs r) sels (Ok acc) = Ok b -> a = b).
+            fold_left (resolve_step (resolve k1 S frs) S frs r under) sels (Ok acc) = Ok a ->
+            fold_left (resolve_step (resolve k2 S frs) S frs r under) sels (Ok acc) = Ok b -> a = b).
   { clear H1 H2 a b sels. induction sels as [|s sels IHs]; intros [l0 m0] a b H1 H2; simpl in H1, H2.
     - congruence.
     - destruct s as [al n c ms sub | n c | tc c sub]; simpl in H1, H2.
@@ -23,21 +23,22 @@ Proof.
       + destruct (lookup_frag frs n) as [fd|]; [| rewrite resolve_fold_err in H1; discriminate].
         destruct (lookup_type S r); [| rewrite resolve_fold_err in H1; discriminate].
         destruct (lookup_type S (fr_on fd)) as [df|]; [| rewrite resolve_fold_err in H1; discriminate].
-        destruct (unpack_fragment S fd (Some r)); simpl in H1, H2; [| eapply IHs; eauto].
+        destruct (negb (under || c) && negb (unpack_fragment S fd (Some r))); simpl in H1, H2;
+          [eapply IHs; eauto|].
         destruct (String.eqb (fr_on fd) r || (is_abstract df && is_sub_type S (fr_on fd) r));
           [| eapply IHs; eauto].
-        destruct (resolve k1 S frs (fr_sel fd) r) as [q1|] eqn:E1; simpl in H1;
+        destruct (resolve k1 S frs (under || c) (fr_sel fd) r) as [q1|] eqn:E1; simpl in H1;
           [| rewrite resolve_fold_err in H1; discriminate].
-        destruct (resolve k2 S frs (fr_sel fd) r) as [q2|] eqn:E2; simpl in H2;
+        destruct (resolve k2 S frs (under || c) (fr_sel fd) r) as [q2|] eqn:E2; simpl in H2;
           [| rewrite resolve_fold_err in H2; discriminate].
-        rewrite (IH _ _ _ _ _ E1 E2) in H1. eapply IHs; eauto.
+        rewrite (IH _ _ _ _ _ _ E1 E2) in H1. eapply IHs; eauto.
       + destruct (inline_root_type S (match tc with Some tc0 => tc0 | None => r end) r) as [r'|];
           [| eapply IHs; eauto].
-        destruct (resolve k1 S frs sub r') as [q1|] eqn:E1; simpl in H1;
+        destruct (resolve k1 S frs (under || c) sub r') as [q1|] eqn:E1; simpl in H1;
           [| rewrite resolve_fold_err in H1; discriminate].
-        destruct (resolve k2 S frs sub r') as [q2|] eqn:E2; simpl in H2;
+        destruct (resolve k2 S frs (under || c) sub r') as [q2|] eqn:E2; simpl in H2;
           [| rewrite resolve_fold_err in H2; discriminate].
-        rewrite (IH _ _ _ _ _ E1 E2) in H1. eapply IHs; eauto. }
+        rewrite (IH _ _ _ _ _ _ E1 E2) in H1. eapply IHs; eauto. }
   eapply G; eauto.
 Qed.
 
@@ -72,7 +73,7 @@ Proof.
   destruct k2 as [|k2]; [discriminate H2|]. simpl in H1, H2.
   destruct (lookup_frag frs n) as [f|]; [| discriminate H1].
   apply bind_ok in H1. destruct H1 as [q1 [R1 H1]]. apply bind_ok in H2. destruct H2 as [q2 [R2 H2]].
-  rewrite (resolve_fuel_det _ _ _ _ _ _ _ _ R1 R2) in H1. clear R1 R2 q1.
+  rewrite (resolve_fuel_det _ _ _ _ _ _ _ _ _ R1 R2) in H1. clear R1 R2 q1.
   revert H1 H2. generalize (snd q2) at 1 3 as l. generalize (snd q2) as acc.
   intros acc l. revert acc a b. induction l as [|x l IHl]; intros acc a b H1 H2; simpl in H1, H2.
   - congruence.
@@ -85,14 +86,14 @@ Proof.
 Qed.
 
 (* ---- converse of flattenM_collect_mix: every collected node is an own field's or a mixin's ---- *)
-Lemma flattenM_collect_conv S frs rt : forall g f r sels fns ms l,
-  flattenM g S frs rt r sels = Some (fns, ms) -> collect f S frs rt false sels = Some l ->
+Lemma flattenM_collect_conv S frs rt : forall g f r under sels fns ms l,
+  flattenM g S frs rt r under sels = Some (fns, ms) -> collect f S frs rt under sels = Some l ->
   forall x, In x l ->
     (exists fn, In fn fns /\ x = node_of_fnode false fn) \/
     (exists m fm k lm, In m ms /\ lookup_frag frs m = Some fm /\
                        collect k S frs rt false (fr_sel fm) = Some lm /\ In x lm).
 Proof.
-  induction g as [|g IH]; intros f r sels fns ms l Hf Hc; [discriminate Hf|].
+  induction g as [|g IH]; intros f r under sels fns ms l Hf Hc; [discriminate Hf|].
   destruct f as [|f]; [discriminate Hc|]. simpl in Hf, Hc.
   set (OWN := fun (fns : list fnode) (x : cnode) => exists fn, In fn fns /\ x = node_of_fnode false fn).
   set (MIX := fun (ms : list string) (x : cnode) =>
@@ -103,8 +104,8 @@ Proof.
   assert (MIXmono : forall a b x, incl a b -> MIX a x -> MIX b x).
   { intros a b x Hab [m [fm [k [lm [H1 H2]]]]]. exists m, fm, k, lm. auto. }
   assert (G : forall sels l1 m1 l0 fns ms l,
-            fold_left (flattenM_step (flattenM g S frs rt) S frs rt r) sels (Some (l1, m1)) = Some (fns, ms) ->
-            fold_left (collect_step (collect f S frs rt) S frs rt false) sels (Some l0) = Some l ->
+            fold_left (flattenM_step (flattenM g S frs rt) S frs rt r under) sels (Some (l1, m1)) = Some (fns, ms) ->
+            fold_left (collect_step (collect f S frs rt) S frs rt under) sels (Some l0) = Some l ->
             incl l1 fns /\ incl m1 ms /\
             (forall x, In x l -> In x l0 \/ OWN fns x \/ MIX ms x)).
   { clear Hf Hc fns ms l sels. induction sels as [|s sels IHs]; intros l1 m1 l0 fns ms l Hf Hc; simpl in Hf, Hc.
@@ -114,29 +115,15 @@ Proof.
         split; [eapply incl_tran; [apply incl_appl, incl_refl | exact I1]|]. split; [exact I2|].
         intros x Hx. destruct (I3 x Hx) as [H | H]; [| right; exact H].
         apply in_app_or in H. destruct H as [H | [H | []]]; [left; exact H|]. subst x. right. left.
-        exists (fnode_of al n c mx sub). split; [apply I1, in_or_app; right; left; reflexivity | reflexivity].
-      + simpl in Hf, Hc. destruct c; [rewrite flattenM_fold_none in Hf; discriminate|].
+        exists (fnode_of al n (under || c) mx sub).
+        split; [apply I1, in_or_app; right; left; reflexivity | reflexivity].
+      + simpl in Hf, Hc.
         destruct (lookup_frag frs n) as [fd|] eqn:Elf; [| rewrite flattenM_fold_none in Hf; discriminate].
         destruct (lookup_type S r) as [dr|]; [| rewrite flattenM_fold_none in Hf; discriminate].
         destruct (lookup_type S (fr_on fd)) as [df|]; [| rewrite flattenM_fold_none in Hf; discriminate].
-        destruct (unpack_fragment S fd (Some r)).
-        * destruct (String.eqb (fr_on fd) r || (is_abstract df && is_sub_type S (fr_on fd) r)).
-          -- destruct (type_applies S rt (fr_on fd)); [| rewrite flattenM_fold_none in Hf; discriminate].
-             destruct (flattenM g S frs rt r (fr_sel fd)) as [[l' ms']|] eqn:El;
-               [| rewrite flattenM_fold_none in Hf; discriminate].
-             destruct (collect f S frs rt false (fr_sel fd)) as [q|] eqn:Eq;
-               [| rewrite collect_fold_none in Hc; discriminate].
-             destruct (IHs _ _ _ _ _ _ Hf Hc) as [I1 [I2 I3]].
-             split; [eapply incl_tran; [apply incl_appl, incl_refl | exact I1]|].
-             split; [eapply incl_tran; [apply incl_appl, incl_refl | exact I2]|].
-             intros x Hx. destruct (I3 x Hx) as [H | H]; [| right; exact H].
-             apply in_app_or in H. destruct H as [H | H]; [left; exact H | right].
-             destruct (IH _ _ _ _ _ _ El Eq x H) as [Ho | Hm].
-             ++ left. eapply OWNmono; [| exact Ho]. eapply incl_tran; [apply incl_appr, incl_refl | exact I1].
-             ++ right. eapply MIXmono; [| exact Hm]. eapply incl_tran; [apply incl_appr, incl_refl | exact I2].
-          -- destruct (type_applies S rt (fr_on fd)); [rewrite flattenM_fold_none in Hf; discriminate|].
-             apply (IHs _ _ _ _ _ _ Hf Hc).
-        * destruct (type_applies S rt (fr_on fd)); [| rewrite flattenM_fold_none in Hf; discriminate].
+        destruct (negb (under || c) && negb (unpack_fragment S fd (Some r))) eqn:Emx.
+        * apply andb_true_iff in Emx as [Eu _]. apply negb_true_iff in Eu. rewrite Eu in Hc.
+          destruct (type_applies S rt (fr_on fd)); [| rewrite flattenM_fold_none in Hf; discriminate].
           destruct (collect f S frs rt false (fr_sel fd)) as [q|] eqn:Eq;
             [| rewrite collect_fold_none in Hc; discriminate].
           destruct (IHs _ _ _ _ _ _ Hf Hc) as [I1 [I2 I3]].
@@ -144,20 +131,36 @@ Proof.
           intros x Hx. destruct (I3 x Hx) as [H | H]; [| right; exact H].
           apply in_app_or in H. destruct H as [H | H]; [left; exact H | right; right].
           exists n, fd, f, q. split; [apply I2, in_or_app; right; left; reflexivity | auto].
-      + simpl in Hf, Hc. destruct c; [rewrite flattenM_fold_none in Hf; discriminate|].
+        * destruct (String.eqb (fr_on fd) r || (is_abstract df && is_sub_type S (fr_on fd) r)).
+          -- destruct (type_applies S rt (fr_on fd)); [| rewrite flattenM_fold_none in Hf; discriminate].
+             destruct (flattenM g S frs rt r (under || c) (fr_sel fd)) as [[l' ms']|] eqn:El;
+               [| rewrite flattenM_fold_none in Hf; discriminate].
+             destruct (collect f S frs rt (under || c) (fr_sel fd)) as [q|] eqn:Eq;
+               [| rewrite collect_fold_none in Hc; discriminate].
+             destruct (IHs _ _ _ _ _ _ Hf Hc) as [I1 [I2 I3]].
+             split; [eapply incl_tran; [apply incl_appl, incl_refl | exact I1]|].
+             split; [eapply incl_tran; [apply incl_appl, incl_refl | exact I2]|].
+             intros x Hx. destruct (I3 x Hx) as [H | H]; [| right; exact H].
+             apply in_app_or in H. destruct H as [H | H]; [left; exact H | right].
+             destruct (IH _ _ _ _ _ _ _ El Eq x H) as [Ho | Hm].
+             ++ left. eapply OWNmono; [| exact Ho]. eapply incl_tran; [apply incl_appr, incl_refl | exact I1].
+             ++ right. eapply MIXmono; [| exact Hm]. eapply incl_tran; [apply incl_appr, incl_refl | exact I2].
+          -- destruct (type_applies S rt (fr_on fd)); [rewrite flattenM_fold_none in Hf; discriminate|].
+             apply (IHs _ _ _ _ _ _ Hf Hc).
+      + simpl in Hf, Hc.
         destruct (inline_root_type S (match tc with Some tc0 => tc0 | None => r end) r) as [r'|].
         * destruct (match tc with None => true | Some t => type_applies S rt t end);
             [| rewrite flattenM_fold_none in Hf; discriminate].
-          destruct (flattenM g S frs rt r' sub) as [[l' ms']|] eqn:El;
+          destruct (flattenM g S frs rt r' (under || c) sub) as [[l' ms']|] eqn:El;
             [| rewrite flattenM_fold_none in Hf; discriminate].
-          destruct (collect f S frs rt false sub) as [q|] eqn:Eq;
+          destruct (collect f S frs rt (under || c) sub) as [q|] eqn:Eq;
             [| rewrite collect_fold_none in Hc; discriminate].
           destruct (IHs _ _ _ _ _ _ Hf Hc) as [I1 [I2 I3]].
           split; [eapply incl_tran; [apply incl_appl, incl_refl | exact I1]|].
           split; [eapply incl_tran; [apply incl_appl, incl_refl | exact I2]|].
           intros x Hx. destruct (I3 x Hx) as [H | H]; [| right; exact H].
           apply in_app_or in H. destruct H as [H | H]; [left; exact H | right].
-          destruct (IH _ _ _ _ _ _ El Eq x H) as [Ho | Hm].
+          destruct (IH _ _ _ _ _ _ _ El Eq x H) as [Ho | Hm].
           -- left. eapply OWNmono; [| exact Ho]. eapply incl_tran; [apply incl_appr, incl_refl | exact I1].
           -- right. eapply MIXmono; [| exact Hm]. eapply incl_tran; [apply incl_appr, incl_refl | exact I2].
         * destruct (match tc with None => true | Some t => type_applies S rt t end);
@@ -180,8 +183,8 @@ Proof.
   unfold mixin_ok in Hok. rewrite Hlk in Hok.
   apply andb_true_iff in Hok as [_ Hok].
   destruct (sels_okM_inv _ _ _ _ _ _ _ _ _ _ Hok) as [g' [fns [ms [Eg [Hfl [_ [_ [Hmix _]]]]]]]].
-  pose proof (flattenM_resolve_det _ _ _ _ _ _ _ _ _ Hfl Hres) as Eq. subst q. simpl in Hfold.
-  destruct (flattenM_collect_mix _ _ _ _ _ _ _ _ _ _ Hfl Hc) as [_ Hmx].
+  pose proof (flattenM_resolve_det _ _ _ _ _ _ _ _ _ _ Hfl Hres) as Eq. subst q. simpl in Hfold.
+  destruct (flattenM_collect_mix _ _ _ _ _ _ _ _ _ _ _ Hfl Hc) as [_ Hmx].
   destruct (append_fold_In _ _ _ _ Hfold) as [_ [_ H3]].
   destruct (H3 m Hm) as [Hin | [b [lb [Hb [Efb Hmb]]]]].
   - destruct (Hmx m Hin) as [fm [k' [lm [E1 [E2 E3]]]]]. exists fm, k', lm. auto.
@@ -352,7 +355,7 @@ Section MixC.
     destruct (level_invM _ _ _ _ _ _ _ _ _ _ _ _ _ _ _ _ Hp Hfl Hat)
       as [f2 [pfl [extra [kept [Ef [Hrun [Hkept [Hrem Hout]]]]]]]].
     destruct Hamb as [[HkN [HkvN HspecN]] [HpyN Hjwf]].
-    destruct (flattenM_collect_mix _ _ _ _ _ _ _ _ _ _ Hfl Hcol) as [Hown Hmixn].
+    destruct (flattenM_collect_mix _ _ _ _ _ _ _ _ _ _ _ Hfl Hcol) as [Hown Hmixn].
     assert (Hc0 : In {| c_name := cn; c_bases := class_bases ms kept []; c_fields := pfl |} out)
       by (rewrite Hout; left; reflexivity).
     destruct (Htab _ Hc0) as [Hl Hnb]. simpl in Hl, Hnb.
@@ -461,7 +464,7 @@ Section MixC.
       apply in_map_iff. exists pf'. split; [| exact Hpf'].
       destruct (HA pf' Hpf') as [A1 [A2 _]]. destruct (HAb pfm Hpfm) as [B1 [B2 _]].
       rewrite <- Ekm. eapply py_inj; eauto. congruence. }
-    intros x Hx. destruct (flattenM_collect_conv _ _ _ _ _ _ _ _ _ _ Hfl Hcol x Hx)
+    intros x Hx. destruct (flattenM_collect_conv _ _ _ _ _ _ _ _ _ _ _ Hfl Hcol x Hx)
       as [[fn [Hfn Ex]] | [m [fm [km [lm [Hm [Elf [Hcm Hxm]]]]]]]].
     - destruct (Forall2_In_l _ _ _ _ FP Hfn) as [pf [Hpf [ctx Hfp]]].
       destruct (field_pf_inv _ _ _ _ _ _ _ _ _ _ Hfp) as [t [a0 [il [_ [_ Epf]]]]].
